@@ -1495,3 +1495,170 @@ Proof.
     lia. }
   apply dec_scalar_depth0 in H. rewrite H. cbn. lia.
 Qed.
+
+(* ================= nesting to MaxDepth or beyond: Err EDepth, for every encodable item ================= *)
+
+Definition deep_P (i : item) : Prop :=
+  forall e d key est dst rest dep rf lf,
+    wfb e d i -> R est dst ->
+    dep < maxdepth d -> maxdepth d <= N.of_nat (depth i) + dep ->
+    (1 <= rf)%nat -> maxdepth d <= N.of_nat rf + dep ->
+    (2 * length (fst (enc e key i est) ++ rest) + 1 <= lf)%nat ->
+    dec d rf lf dep dst (fst (enc e key i est) ++ rest) = Err EDepth.
+
+Lemma unhashable_depth0 : forall k, unhashable k = false -> depth k = 0%nat.
+Proof. destruct k; cbn; intros; try reflexivity; discriminate. Qed.
+
+
+Lemma enc_len_ne : forall vd l, enc_len vd l <> [].
+Proof. intros. unfold enc_len. repeat match goal with |- context [if ?c then _ else _] => destruct c end; discriminate. Qed.
+
+Lemma app_ne : forall (a b : list N), a <> [] -> a ++ b <> [].
+Proof. intros a b H. destruct a; [congruence|discriminate]. Qed.
+
+Lemma enc_nonempty : forall e key i st, fst (enc e key i st) <> [].
+Proof.
+  intros e key i st. destruct i.
+  - cbn. discriminate.
+  - cbn. discriminate.
+  - cbn [enc fst]. unfold enc_int, enc_uint.
+    repeat match goal with |- context [if ?c then _ else _] => destruct c end; discriminate.
+  - cbn [enc fst]. unfold enc_uint.
+    repeat match goal with |- context [if ?c then _ else _] => destruct c end; discriminate.
+  - cbn [enc fst]. unfold enc_f32, enc_spfloat.
+    repeat match goal with |- context [if ?c then _ else _] => destruct c end; discriminate.
+  - cbn [enc fst]. unfold enc_f64, enc_spfloat.
+    repeat match goal with |- context [if ?c then _ else _] => destruct c end; discriminate.
+  - cbn [enc]. unfold enc_str, enc_symbol.
+    repeat match goal with
+           | |- context [if ?c then _ else _] => destruct c
+           | |- context [match ?c with Some _ => _ | None => _ end] => destruct c
+           end; cbn [fst]; try discriminate; try (apply app_ne; apply enc_len_ne).
+  - cbn [enc fst]. apply app_ne, enc_len_ne.
+  - rewrite enc_arr_eq. destruct (enc_list e l st). cbn [fst]. apply app_ne, enc_len_ne.
+  - rewrite enc_map_eq. destruct (enc_pairs e l st). cbn [fst]. apply app_ne, enc_len_ne.
+  - cbn. discriminate.
+  - cbn [enc fst]. apply app_ne, enc_len_ne.
+  - cbn [enc fst]. unfold enc_time. destruct (_ && _); discriminate.
+Qed.
+
+Lemma loop_arr_deep : forall l, Forall deep_P l ->
+  forall e d est dst rest dep rf g,
+    wfb_list e d l -> R est dst ->
+    dep < maxdepth d ->
+    maxdepth d <= N.of_nat (fold_right (fun x m => Nat.max (depth x) m) 0%nat l) + dep ->
+    (1 <= rf)%nat -> maxdepth d <= N.of_nat rf + dep ->
+    (2 * length (fst (enc_list e l est) ++ rest) + 2 <= g)%nat ->
+    loopN (fun g' st inp => dec d rf g' dep st inp) g (len l) dst (fst (enc_list e l est) ++ rest) = Err EDepth.
+Proof.
+  induction l as [|x r IHl]; intros HP e d est dst rest dep rf g Hwf HR Hdep Hmax Hrf1 Hrf Hg.
+  - cbn [fold_right] in Hmax. lia.
+  - inversion HP as [|? ? Px Pr]; subst. destruct Hwf as [Hwx Hwr].
+    cbn [enc_list] in *.
+    destruct (enc e false x est) as [b1 s1] eqn:Ex.
+    destruct (enc_list e r s1) as [b2 s2] eqn:Er. cbn [fst snd] in *.
+    destruct g as [|g]; [lia|].
+    rewrite loopN_S by (rewrite len_cons; lia).
+    rewrite <- app_assoc in *.
+    destruct (N.le_gt_cases (maxdepth d) (N.of_nat (depth x) + dep)) as [Hx|Hx].
+    + pose proof (Px e d false est dst (b2 ++ rest) dep rf g Hwx HR Hdep Hx Hrf1 Hrf) as Hd.
+      rewrite Ex in Hd. cbn [fst] in Hd. rewrite Hd by lia. reflexivity.
+    + destruct (dec_enc_all x e d false est dst (b2 ++ rest) dep rf g Hwx HR) as (dst1 & Hd1 & HR1); try lia.
+      { rewrite Ex. cbn [fst]. lia. }
+      rewrite Ex in Hd1, HR1. cbn [fst snd] in Hd1, HR1. rewrite Hd1. cbn [bind].
+      assert (Hne : (length (b2 ++ rest) < length (b1 ++ b2 ++ rest))%nat) by (eapply dec_progress; exact Hd1).
+      replace (len (x :: r) - 1) with (len r) by (rewrite len_cons; lia).
+      cbn [fold_right] in Hmax.
+      pose proof (IHl Pr e d s1 dst1 rest dep rf g Hwr HR1 Hdep) as Hl.
+      rewrite Er in Hl. cbn [fst] in Hl. rewrite Hl; try lia. reflexivity.
+Qed.
+
+Lemma loop_map_deep : forall l, Forall (fun kv => deep_P (fst kv) /\ deep_P (snd kv)) l ->
+  forall e d est dst rest dep rf g seen,
+    wfb_pairs e d l -> R est dst ->
+    nodup_seen seen (map (fun kv => key_norm (norm e d (fst kv))) l) = true ->
+    dep < maxdepth d ->
+    maxdepth d <= N.of_nat (fold_right (fun kv m => Nat.max (Nat.max (depth (fst kv)) (depth (snd kv))) m) 0%nat l) + dep ->
+    (1 <= rf)%nat -> maxdepth d <= N.of_nat rf + dep ->
+    (2 * length (fst (enc_pairs e l est) ++ rest) + 2 <= g)%nat ->
+    loopM (fun g' st inp => dec d rf g' dep st inp) g (len l) seen dst (fst (enc_pairs e l est) ++ rest) = Err EDepth.
+Proof.
+  induction l as [|[k v] r IHl]; intros HP e d est dst rest dep rf g seen Hwf HR Hnd Hdep Hmax Hrf1 Hrf Hg.
+  - cbn [fold_right] in Hmax. lia.
+  - inversion HP as [|? ? [Pk Pv] Pr]; subst. cbn [fst snd] in Pk, Pv.
+    destruct Hwf as (Hwk & Huk & Hwv & Hwr).
+    cbn [enc_pairs] in *.
+    destruct (enc e true k est) as [b1 s1] eqn:Ek.
+    destruct (enc e false v s1) as [b2 s2] eqn:Ev.
+    destruct (enc_pairs e r s2) as [b3 s3] eqn:Er. cbn [fst snd] in *.
+    destruct g as [|g]; [lia|].
+    cbn [loopM]. replace (len ((k, v) :: r) =? 0) with false by (rewrite len_cons; lia).
+    rewrite <- !app_assoc in *.
+    pose proof (unhashable_depth0 k Huk) as Hk0.
+    destruct (dec_enc_all k e d true est dst (b2 ++ b3 ++ rest) dep rf g Hwk HR) as (dst1 & Hd1 & HR1); try lia.
+    { rewrite Ek. cbn [fst]. lia. }
+    rewrite Ek in Hd1, HR1. cbn [fst snd] in Hd1, HR1. rewrite Hd1. cbn [bind].
+    assert (Hne1 : (length (b2 ++ b3 ++ rest) < length (b1 ++ b2 ++ b3 ++ rest))%nat) by (eapply dec_progress; exact Hd1).
+    cbn [map nodup_seen fst] in Hnd. apply andb_true_iff in Hnd. destruct Hnd as [Hn1 Hn2].
+    apply negb_true_iff in Hn1.
+    cbn [fold_right fst snd] in Hmax.
+    destruct (N.le_gt_cases (maxdepth d) (N.of_nat (depth v) + dep)) as [Hx|Hx].
+    + pose proof (Pv e d false s1 dst1 (b3 ++ rest) dep rf g Hwv HR1 Hdep Hx Hrf1 Hrf) as Hd.
+      rewrite Ev in Hd. cbn [fst] in Hd.
+      assert (Hne2 : (1 <= length b2)%nat).
+      { pose proof (enc_nonempty e false v s1) as Hv. rewrite Ev in Hv. cbn [fst] in Hv. destruct b2; [congruence|cbn; lia]. }
+      destruct (b2 ++ b3 ++ rest) as [|c0 t0] eqn:Eb.
+      { apply (f_equal (@length N)) in Eb. rewrite app_length in Eb. cbn [length] in Eb. lia. }
+      rewrite (norm_unhashable e d k Huk). rewrite Hn1. rewrite Hd by (cbn [length] in *; lia). reflexivity.
+    + destruct (dec_enc_all v e d false s1 dst1 (b3 ++ rest) dep rf g Hwv HR1) as (dst2 & Hd2 & HR2); try lia.
+      { rewrite Ev. cbn [fst]. lia. }
+      rewrite Ev in Hd2, HR2. cbn [fst snd] in Hd2, HR2.
+      assert (Hne2 : (length (b3 ++ rest) < length (b2 ++ b3 ++ rest))%nat) by (eapply dec_progress; exact Hd2).
+      destruct (b2 ++ b3 ++ rest) as [|c0 t0] eqn:Eb; [cbn [length] in Hne2; lia|].
+      rewrite (norm_unhashable e d k Huk). rewrite Hn1. rewrite Hd2. cbn [bind].
+      replace (len ((k, v) :: r) - 1) with (len r) by (rewrite len_cons; lia).
+      pose proof (IHl Pr e d s2 dst2 rest dep rf g (key_norm (norm e d k) :: seen) Hwr HR2 Hn2 Hdep) as Hl.
+      rewrite Er in Hl. cbn [fst] in Hl. rewrite Hl; try (cbn [length] in *; lia). reflexivity.
+Qed.
+
+Lemma deep_all : forall i, deep_P i.
+Proof.
+  induction i using item_ind'; unfold deep_P;
+    intros e d key est dst rest dep rf lf Hwf HR Hdep Hmax Hrf1 Hrf Hlf;
+    try (cbn [depth] in Hmax; lia).
+  - (* IArr *)
+    rewrite wfb_arr_eq in Hwf. destruct Hwf as [Hlen Hwl].
+    rewrite enc_arr_eq in *. destruct (enc_list e l est) as [bs st'] eqn:El. cbn [fst snd] in *.
+    destruct rf as [|rf']; [lia|]. unfold lenok in Hlen.
+    destruct (enc_len_spec vdArray (len l) Hlen) as (vs & tl & Htl & Hvs & Hfn).
+    rewrite Htl in *. cbn [app] in *. cbn [dec]. rewrite mkbd_div, mkbd_mod by assumption.
+    consts. cbn [N.eqb Pos.eqb]. rewrite <- app_assoc in *.
+    rewrite (dec_len_fn _ _ _ _ (Hfn _) Hlen). cbn [bind].
+    destruct (maxdepth d <=? dep + 1) eqn:Ed; [reflexivity|].
+    cbn [depth] in Hmax.
+    pose proof (loop_arr_deep l H e d est dst rest (dep + 1) rf' lf Hwl HR) as Hl.
+    rewrite El in Hl. cbn [fst] in Hl. rewrite Hl; try lia; [reflexivity|].
+    cbn [length] in Hlf. rewrite !app_length in *. lia.
+  - (* IMap *)
+    rewrite wfb_map_eq in Hwf. destruct Hwf as (Hlen & Hnd & Hwl).
+    rewrite enc_map_eq in *. destruct (enc_pairs e l est) as [bs st'] eqn:El. cbn [fst snd] in *.
+    destruct rf as [|rf']; [lia|]. unfold lenok in Hlen.
+    destruct (enc_len_spec vdMap (len l) Hlen) as (vs & tl & Htl & Hvs & Hfn).
+    rewrite Htl in *. cbn [app] in *. cbn [dec]. rewrite mkbd_div, mkbd_mod by assumption.
+    consts. cbn [N.eqb Pos.eqb]. rewrite <- app_assoc in *.
+    rewrite (dec_len_fn _ _ _ _ (Hfn _) Hlen). cbn [bind].
+    destruct (maxdepth d <=? dep + 1) eqn:Ed; [reflexivity|].
+    cbn [depth] in Hmax.
+    pose proof (loop_map_deep l H e d est dst rest (dep + 1) rf' lf [] Hwl HR Hnd) as Hl.
+    rewrite El in Hl. cbn [fst] in Hl. rewrite Hl; try lia; [reflexivity|].
+    cbn [length] in Hlf. rewrite !app_length in *. lia.
+  - (* ITag *) cbn [wfb] in Hwf. contradiction.
+Qed.
+
+Lemma dec_naked_deep : forall e d i est dst rest,
+  wfb e d i -> R est dst -> 1 <= maxdepth d -> maxdepth d <= N.of_nat (depth i) ->
+  dec_naked d dst (fst (enc e false i est) ++ rest) = Err EDepth.
+Proof.
+  intros e d i est dst rest Hwf HR H1 Hd. unfold dec_naked, fuel_r, fuel_l.
+  apply deep_all; auto; lia.
+Qed.
